@@ -197,11 +197,39 @@ type EditCase struct {
 	Buf []int  `json:"buf,omitempty"`
 	LV  [2]int `json:"lv,omitempty"`
 	RV  [2]int `json:"rv,omitempty"`
+	// Big describes two long inputs compactly (used when BigN > 0): lhs is
+	// 0..BigN-1 with every value v replaced by v mod BigMod when BigMod > 0
+	// (repeats); rhs is lhs without the elements at the indices BigDel and with
+	// the value -(j+1) inserted before index BigIns[j].  Swap exchanges the roles.
+	BigN   int   `json:"bign,omitempty"`
+	BigMod int   `json:"bigmod,omitempty"`
+	BigDel []int `json:"bigdel,omitempty"`
+	BigIns []int `json:"bigins,omitempty"`
+	Swap   bool  `json:"swap,omitempty"`
+}
+
+// lcsLen is the two-row dynamic programme for the LCS length (long inputs).
+func lcsLen(a, b []int) int {
+	if len(b) > len(a) {
+		a, b = b, a
+	}
+	prev, cur := make([]int32, len(b)+1), make([]int32, len(b)+1)
+	for i := 1; i <= len(a); i++ {
+		for j := 1; j <= len(b); j++ {
+			if a[i-1] == b[j-1] {
+				cur[j] = prev[j-1] + 1
+			} else {
+				cur[j] = max(prev[j], cur[j-1])
+			}
+		}
+		prev, cur = cur, prev
+	}
+	return int(prev[len(b)])
 }
 
 var c11Names = []string{
 	"inputs_equal", "an_input_empty", "lcs_len=0", "script_has_replace", "script_edits>=5",
-	"distinct_lcs=1", "distinct_lcs=2..9", "distinct_lcs>=10", "len>=30",
+	"distinct_lcs=1", "distinct_lcs=2..9", "distinct_lcs>=10", "len>=30", "len(lhs)*len(rhs)>2^20", "len(lhs)*len(rhs)>2^24",
 }
 
 const (
@@ -214,6 +242,8 @@ const (
 	c11Few
 	c11Many
 	c11Long
+	c11Big
+	c11Big24
 )
 
 func opName(op slice.EditOp) string {
@@ -247,6 +277,35 @@ func spanOf(s, in, pristine []int, pos int) string {
 }
 
 func checkEdit(c EditCase) (in info, msg string) {
+	if c.BigN > 0 {
+		n := min(c.BigN, 9000)
+		c.Lhs = make([]int, n)
+		for i := range c.Lhs {
+			c.Lhs[i] = i
+			if c.BigMod > 0 {
+				c.Lhs[i] = i % c.BigMod
+			}
+		}
+		del := map[int]bool{}
+		for _, d := range c.BigDel {
+			del[d] = true
+		}
+		ins := map[int][]int{}
+		for j, p := range c.BigIns {
+			ins[p] = append(ins[p], -(j + 1))
+		}
+		c.Rhs = nil
+		for i := 0; i <= n; i++ {
+			c.Rhs = append(c.Rhs, ins[i]...)
+			if i < n && !del[i] {
+				c.Rhs = append(c.Rhs, c.Lhs[i])
+			}
+		}
+		if c.Swap {
+			c.Lhs, c.Rhs = c.Rhs, c.Lhs
+		}
+	}
+	big := len(c.Lhs)*len(c.Rhs) > 1<<20
 	lhs, rhs := slices.Clone(c.Lhs), slices.Clone(c.Rhs)
 	if c.Buf != nil {
 		buf := slices.Clone(c.Buf)
@@ -273,6 +332,9 @@ func checkEdit(c EditCase) (in info, msg string) {
 	for k, e := range script {
 		l0, r0 := lpos, rpos // offsets before this edit
 		where := func(format string, args ...any) string {
+			if len(script) > 40 || len(e.X)+len(e.Y) > 200 {
+				return errf("script of %d edits, edit #%d %s with %d/%d elements (at lhs offset %d, rhs offset %d): ", len(script), k, opName(e.Op), len(e.X), len(e.Y), l0, r0) + fmt.Sprintf(format, args...)
+			}
 			return errf("script %v, edit #%d %v (at lhs offset %d, rhs offset %d): ", script, k, e, l0, r0) + fmt.Sprintf(format, args...)
 		}
 		useX, useY := false, false
@@ -362,6 +424,17 @@ func checkEdit(c EditCase) (in info, msg string) {
 	}
 
 	// (minimality) kept elements == LCS length by the reference table.
+	if big {
+		if want := lcsLen(c.Lhs, c.Rhs); emitted != want {
+			return in, errf("script of %d edits keeps %d elements, a longest common subsequence has %d", len(script), emitted, want)
+		}
+		in.nt = c.BigMod > 0
+		in.set(c11Long)
+		in.set(c11Big)
+		in.setIf(len(lhs)*len(rhs) > 1<<24, c11Big24)
+		in.setIf(len(script) >= 5, c11Edits5)
+		return in, ""
+	}
 	S := lcsTable(c.Lhs, c.Rhs)
 	if want := int(S[0]); emitted != want {
 		return in, errf("script %v keeps %d elements, a longest common subsequence has %d", script, emitted, want)
@@ -402,6 +475,28 @@ type SeqCase struct {
 	// Segs describes a long input compactly (used when Vs is empty): the
 	// concatenation of arithmetic runs {start, step, length}.
 	Segs [][3]int `json:"segs,omitempty"`
+	// Wide stretches the values linearly over the whole int range, so that
+	// differences of elements overflow.  The order of the elements is unchanged.
+	Wide bool `json:"wide,omitempty"`
+}
+
+// widen maps the values linearly onto the whole int range: the smallest
+// becomes math.MinInt, the largest (nearly) math.MaxInt; the order of the
+// elements is unchanged.
+func widen(vs []int) []int {
+	if len(vs) == 0 {
+		return vs
+	}
+	lo, hi := slices.Min(vs), slices.Max(vs)
+	if lo == hi {
+		return vs
+	}
+	step := math.MaxUint64 / uint64(hi-lo)
+	out := make([]int, len(vs))
+	for i, v := range vs {
+		out[i] = int(uint64(1)<<63 + uint64(v-lo)*step) // two's complement: MinInt + offset
+	}
+	return out
 }
 
 // refLongestFast is the patience-sorting reference for long inputs: tails[l]
@@ -433,7 +528,7 @@ func refLongestFast(vs []int, cmpf func(a, b int) int, strict bool) int {
 var c12SeqNames = []string{
 	"cmp=nat", "cmp=rev", "cmp=half", "empty", "all_equivalent", "whole_input_nondecreasing",
 	"strictly_decreasing", "has_adjacent_equal_run", "lnds>lis", "lnds>=lis+3", "len>=50",
-	"len>32768", "len>65536", "optimum>32768", "optimum>65536",
+	"len>32768", "len>65536", "optimum>32768", "optimum>65536", "values_span_more_than_half_the_int_range",
 }
 
 const (
@@ -452,6 +547,7 @@ const (
 	c12Seq16
 	c12Opt15
 	c12Opt16
+	c12Wide
 )
 
 func checkSeq(c SeqCase) (in info, msg string) {
@@ -461,6 +557,11 @@ func checkSeq(c SeqCase) (in info, msg string) {
 				c.Vs = append(c.Vs, sg[0]+i*sg[1])
 			}
 		}
+	}
+	if c.Wide && c.Cmp != "diff" && c.Cmp != "half" { // a-b is not an ordering once differences overflow
+		c.Vs = widen(c.Vs)
+	} else {
+		c.Wide = false
 	}
 	var cmpf func(a, b int) int
 	natural := false
@@ -577,6 +678,9 @@ func checkSeq(c SeqCase) (in info, msg string) {
 	in.setIf(n > 1<<16, c12Seq16)
 	in.setIf(wantLNDS > 1<<15, c12Opt15)
 	in.setIf(wantLNDS > 1<<16, c12Opt16)
+	if c.Wide && n > 0 {
+		in.setIf(uint(slices.Max(c.Vs))-uint(slices.Min(c.Vs)) > math.MaxInt, c12Wide)
+	}
 	return in, ""
 }
 
@@ -602,13 +706,25 @@ type LCSCase struct {
 	// bs|as; 3 as|gap|bs with the gap inside as's capacity.  A function that
 	// does not modify its inputs must leave both windows intact whichever way
 	// they lie in memory.
-	Lay int `json:"lay,omitempty"`
+	// Lay 4: bs is the window as[Win[0]:Win[1]] of the first argument's own
+	// memory (Bs is ignored); Lay 5: as is the window bs[Win[0]:Win[1]] of the
+	// second argument (As is ignored).  Win is clamped to the slice.
+	Lay int    `json:"lay,omitempty"`
+	Win [2]int `json:"win,omitempty"`
+}
+
+// window clamps w to a valid window of a slice of length n.
+func window(w [2]int, n int) (lo, hi int) {
+	lo = min(max(w[0], 0), n)
+	hi = min(max(w[1], lo), n)
+	return
 }
 
 var c12LCSNames = []string{
 	"LCS(==)", "LCSFunc(fold)", "an_input_empty", "lcs_len=0", "len(as)>len(bs)", "len(as)<len(bs)",
 	"len(as)==len(bs)", "distinct_lcs=1", "distinct_lcs=2..9", "distinct_lcs>=10", "len>=50",
-	"fold_merges_distinct_elements", "inputs_are_adjacent_windows_of_one_buffer",
+	"fold_merges_distinct_elements", "inputs_are_adjacent_windows_of_one_buffer", "one_input_is_a_window_of_the_other",
+	"inputs_start_at_the_same_element",
 }
 
 const (
@@ -625,11 +741,21 @@ const (
 	c12LLong
 	c12FoldUsed
 	c12Adjacent
+	c12Window
+	c12SameStart
 )
 
 func foldEq(a, b int) bool { return a>>1 == b>>1 }
 
 func checkLCS(c LCSCase) (in info, msg string) {
+	switch c.Lay {
+	case 4:
+		lo, hi := window(c.Win, len(c.As))
+		c.Bs = slices.Clone(c.As[lo:hi])
+	case 5:
+		lo, hi := window(c.Win, len(c.Bs))
+		c.As = slices.Clone(c.Bs[lo:hi])
+	}
 	name := "LCS"
 	eq := same
 	ca, cb := c.As, c.Bs // equivalence classes
@@ -644,7 +770,18 @@ func checkLCS(c LCSCase) (in info, msg string) {
 		}
 	}
 	errf := func(format string, args ...any) string {
-		return fmt.Sprintf("%s(as=%s, bs=%s): ", name, brief(c.As), brief(c.Bs)) + fmt.Sprintf(format, args...)
+		lay := ""
+		switch c.Lay {
+		case 1, 2, 3:
+			lay = " [the arguments are adjacent windows of one buffer]"
+		case 4:
+			lo, hi := window(c.Win, len(c.As))
+			lay = fmt.Sprintf(" [bs is as[%d:%d], the same memory]", lo, hi)
+		case 5:
+			lo, hi := window(c.Win, len(c.Bs))
+			lay = fmt.Sprintf(" [as is bs[%d:%d], the same memory]", lo, hi)
+		}
+		return fmt.Sprintf("%s(as=%s, bs=%s)%s: ", name, brief(c.As), brief(c.Bs), lay) + fmt.Sprintf(format, args...)
 	}
 	as, bs := slices.Clone(c.As), slices.Clone(c.Bs)
 	if c.Lay != 0 {
@@ -652,6 +789,12 @@ func checkLCS(c LCSCase) (in info, msg string) {
 		const gap = 3
 		buf := make([]int, 0, na+nb+2*gap)
 		switch c.Lay {
+		case 4:
+			lo, hi := window(c.Win, na)
+			bs = as[lo:hi]
+		case 5:
+			lo, hi := window(c.Win, nb)
+			as = bs[lo:hi]
 		case 1:
 			buf = append(append(buf, c.As...), c.Bs...)
 			as, bs = buf[:na], buf[na:na+nb]
@@ -710,7 +853,9 @@ func checkLCS(c LCSCase) (in info, msg string) {
 	in.setIf(n >= 2 && n <= 9, c12LFew)
 	in.setIf(n >= 10, c12LMany)
 	in.setIf(len(as) >= 50 || len(bs) >= 50, c12LLong)
-	in.setIf(c.Lay != 0, c12Adjacent)
+	in.setIf(c.Lay >= 1 && c.Lay <= 3, c12Adjacent)
+	in.setIf(c.Lay >= 4, c12Window)
+	in.setIf(c.Lay >= 4 && len(as) > 0 && len(bs) > 0 && &as[0] == &bs[0], c12SameStart)
 	if c.Fold {
 		in.setIf(lcsTable(c.As, c.Bs)[0] < S[0], c12FoldUsed)
 	}
